@@ -5,6 +5,7 @@ TRUST = "trusted: TLC and its Json module, the Rust driver's projection (public 
 
 CLAIMED = {
     "C17": {
+        "domains": ["codec"],
         "text": "TLC checks the codec specification (odometer vs closed form, positional value, shortlex order) on all 18278 "
                 "column names; every library call on all columns/names, on boundary+random (thorough: all 1048576) rows x "
                 "boundary columns x lock combinations, four range shapes and legal sheet names is recorded and validated by "
